@@ -81,7 +81,10 @@ def run_closed(ctx, case):
             rho = np.round(rho.real).astype([np.int64, np.int32, np.uint8][c['prng'] % 3])  # a basis product state written down with integers
             ctx.label('integer dtype basis state')
         ctx.label('boundary state' if rank < D else 'full rank')
-        tag = f'{c["fam"]} dims={dims}'
+        layout = ref.LAYOUTS[(c['prng'] // 7) % len(ref.LAYOUTS)]
+        rho = ref.with_layout(rho, layout)  # same values; the verdict must not depend on strides or writability
+        ctx.label('layout=' + layout)
+        tag = f'{c["fam"]} dims={dims} layout={layout}'
         rho_before = rho.copy()
         ctx.require(E.is_ppt(rho, dimt) is True or E.is_ppt(rho, dimt) == True, 'is_ppt accepts a separable state', tag)  # noqa: E712
         ctx.require(bool(E.is_generalized_ppt(rho, dimt)), 'is_generalized_ppt accepts a separable state', tag)
